@@ -54,6 +54,7 @@ static int __vx_caught_n;
 static uint64_t __vx_exc_store[VX_EXC_SLOTS][VX_EXC_SIZE / 8]; static int __vx_exc_next;
 static int __vx_exc_alive;   /* exception objects allocated and not yet freed (leak ledger for C18) */
 typedef void __vx_dtor_fn(void*);
+static void __vx_run_exc_dtor(void* d, void* obj);
 static inline double __vx_bits2double(uint64_t b) { double d; memcpy(&d, &b, 8); return d; }
 static inline uint64_t __vx_double2bits(double d) { uint64_t b; memcpy(&b, &d, 8); return b; }
 static inline float __vx_bits2float(uint32_t b) { float d; memcpy(&d, &b, 4); return d; }
